@@ -2516,4 +2516,300 @@ theorem exportTree_project (o : ExportOpts) (m : VMap) (h : MapOK1 m)
     · simp [rootOf, hq0]
 
 
+
+
+/-! ### id allocation with `preserve_ids = False` -/
+
+theorem findFree_ge (used : List Int) (fuel : Nat) (pos : Int) : pos ≤ findFree used fuel pos := by
+  induction fuel generalizing pos with
+  | zero => simp [findFree]
+  | succ n ih =>
+    simp only [findFree]
+    split
+    · have := ih (pos + 1); omega
+    · exact Int.le_refl _
+
+theorem filter_len_le (used : List Int) (p q : Int → Bool) (h : ∀ x, q x = true → p x = true) :
+    (used.filter q).length ≤ (used.filter p).length := by
+  induction used with
+  | nil => simp
+  | cons a r ih =>
+    simp only [List.filter]
+    cases hq : q a with
+    | true => simp only [h a hq, List.length_cons]; omega
+    | false =>
+      cases hp : p a with
+      | true => simp only [List.length_cons]; omega
+      | false => exact ih
+
+theorem filter_len_lt (used : List Int) (p q : Int → Bool) (h : ∀ x, q x = true → p x = true)
+    (a : Int) (ha : a ∈ used) (hpa : p a = true) (hqa : q a = false) :
+    (used.filter q).length < (used.filter p).length := by
+  induction used with
+  | nil => simp at ha
+  | cons b r ih =>
+    simp only [List.mem_cons] at ha
+    simp only [List.filter]
+    rcases ha with rfl | ha
+    · simp only [hpa, hqa, List.length_cons]
+      have := filter_len_le r p q h
+      omega
+    · have := ih ha
+      cases hq : q b with
+      | true => simp only [h b hq, List.length_cons]; omega
+      | false =>
+        cases hp : p b with
+        | true => simp only [List.length_cons]; omega
+        | false => exact this
+
+theorem findFree_fresh (used : List Int) (fuel : Nat) (pos : Int)
+    (h : (used.filter (fun x => decide (pos ≤ x))).length < fuel) : findFree used fuel pos ∉ used := by
+  induction fuel generalizing pos with
+  | zero => omega
+  | succ n ih =>
+    simp only [findFree]
+    split
+    · rename_i hc
+      have hmem : pos ∈ used := by simpa using hc
+      apply ih
+      have := filter_len_lt used (fun x => decide (pos ≤ x)) (fun x => decide (pos + 1 ≤ x))
+        (by intro x hx; simp only [decide_eq_true_eq] at hx ⊢; omega) pos hmem (by simp) (by simp only [decide_eq_false_iff_not]; omega)
+      omega
+    · rename_i hc
+      simpa using hc
+
+/-- the manager hands out positive numbers: the search position never drops below 1 -/
+def IdMan.Inv (m : IdMan) : Prop := 1 ≤ m.searchPos
+
+theorem alloc_spec (m : IdMan) (h : m.Inv) :
+    (m.alloc).1 ∉ m.used ∧ 0 < (m.alloc).1 ∧ (m.alloc).2.Inv ∧ (m.alloc).2.used = (m.alloc).1 :: m.used := by
+  have hge := findFree_ge m.used (m.used.length + 1) m.searchPos
+  have hfr : findFree m.used (m.used.length + 1) m.searchPos ∉ m.used := by
+    apply findFree_fresh
+    have := List.length_filter_le (fun x => decide (m.searchPos ≤ x)) m.used
+    omega
+  unfold IdMan.Inv at h
+  refine ⟨hfr, ?_, ?_, rfl⟩
+  · show 0 < findFree m.used (m.used.length + 1) m.searchPos
+    omega
+  · show 1 ≤ findFree m.used (m.used.length + 1) m.searchPos + 1
+    omega
+
+theorem get_false_spec (m : IdMan) (d : Int) (h : m.Inv) :
+    (m.get false d).1 ∉ m.used ∧ 0 < (m.get false d).1 ∧ (m.get false d).2.Inv ∧
+    (m.get false d).2.used = (m.get false d).1 :: m.used := by
+  unfold IdMan.get
+  simp only [Bool.false_eq_true, if_false]
+  split
+  · rename_i hc
+    simp only [Bool.and_eq_true, decide_eq_true_eq, Bool.not_eq_true', List.contains_eq_mem,
+      decide_eq_false_iff_not] at hc
+    exact ⟨hc.2, hc.1, h, rfl⟩
+  · exact alloc_spec m h
+
+/-- `ids` were handed out by the manager on the way from `m` to `m'` -/
+structure Fresh (m m' : IdMan) (ids : List Int) : Prop where
+  nodup : ids.Nodup
+  pos : ∀ i ∈ ids, 0 < i
+  new : ∀ i ∈ ids, i ∉ m.used
+  used : ∀ x, x ∈ m'.used ↔ (x ∈ ids ∨ x ∈ m.used)
+  inv : m'.Inv
+
+theorem Fresh.nil (m : IdMan) (h : m.Inv) : Fresh m m [] :=
+  ⟨List.nodup_nil, by simp, by simp, by simp, h⟩
+
+theorem Fresh.trans {m m' m'' : IdMan} {a b : List Int} (h1 : Fresh m m' a) (h2 : Fresh m' m'' b) :
+    Fresh m m'' (a ++ b) := by
+  refine ⟨?_, ?_, ?_, ?_, h2.inv⟩
+  · rw [List.nodup_append]
+    refine ⟨h1.nodup, h2.nodup, ?_⟩
+    intro x hx y hy e
+    subst e
+    exact h2.new x hy ((h1.used x).mpr (Or.inl hx))
+  · intro i hi
+    simp only [List.mem_append] at hi
+    rcases hi with hi | hi
+    · exact h1.pos i hi
+    · exact h2.pos i hi
+  · intro i hi
+    simp only [List.mem_append] at hi
+    rcases hi with hi | hi
+    · exact h1.new i hi
+    · intro hm; exact h2.new i hi ((h1.used i).mpr (Or.inr hm))
+  · intro x
+    rw [h2.used, h1.used]
+    simp only [List.mem_append]
+    constructor
+    · rintro (h | h | h)
+      · exact Or.inl (Or.inr h)
+      · exact Or.inl (Or.inl h)
+      · exact Or.inr h
+    · rintro ((h | h) | h)
+      · exact Or.inr (Or.inl h)
+      · exact Or.inl h
+      · exact Or.inr (Or.inr h)
+
+theorem Fresh.get (m : IdMan) (d : Int) (h : m.Inv) : Fresh m (m.get false d).2 [(m.get false d).1] := by
+  obtain ⟨h1, h2, h3, h4⟩ := get_false_spec m d h
+  refine ⟨by simp, by simpa using h2, by simpa using h1, ?_, h3⟩
+  intro x
+  rw [h4]
+  simp
+
+
+
+
+mutual
+def visIdsA : Vis → List Int
+  | .mk _ id _ ch => visIdsLA ch ++ [id]
+def visIdsLA : List Vis → List Int
+  | [] => []
+  | v :: vs => visIdsA v ++ visIdsLA vs
+end
+
+mutual
+theorem assignVis_fresh : (v : Vis) → (m : IdMan) → m.Inv →
+    Fresh m (assignVisAux false v m).2 (visIdsA (assignVisAux false v m).1)
+  | .mk name id color children, m, h => by
+    simp only [assignVisAux, visIdsA]
+    have h1 := assignVisList_fresh children m h
+    exact h1.trans (Fresh.get _ id h1.inv)
+theorem assignVisList_fresh : (vs : List Vis) → (m : IdMan) → m.Inv →
+    Fresh m (assignVisAux.assignVisList false vs m).2 (visIdsLA (assignVisAux.assignVisList false vs m).1)
+  | [], m, h => by simpa [assignVisAux.assignVisList, visIdsLA] using Fresh.nil m h
+  | v :: vs, m, h => by
+    simp only [assignVisAux.assignVisList, visIdsLA]
+    have h1 := assignVis_fresh v m h
+    exact h1.trans (assignVisList_fresh vs _ h1.inv)
+end
+
+def faceIds (ss : List Side) : List Int := ss.map (·.id)
+
+theorem assignSides_fresh (ss : List Side) (m : IdMan) (h : m.Inv) :
+    Fresh m (assignSides false ss m).2 (faceIds (assignSides false ss m).1) := by
+  induction ss generalizing m with
+  | nil => simpa [assignSides, faceIds] using Fresh.nil m h
+  | cons s r ih =>
+    simp only [assignSides, faceIds, List.map_cons]
+    have h1 := Fresh.get m s.id h
+    have := h1.trans (ih _ h1.inv)
+    simpa [faceIds] using this
+
+def solidIds (ss : List Solid) : List Int := ss.map (·.id)
+def solidFaceIds (ss : List Solid) : List Int := ss.flatMap (fun s => faceIds s.sides)
+
+theorem assignSolids_fresh (ss : List Solid) (st : Ids) (hf : st.face.Inv) (hs : st.solid.Inv) :
+    Fresh st.face (assignSolids false ss st).2.face (solidFaceIds (assignSolids false ss st).1) ∧
+    Fresh st.solid (assignSolids false ss st).2.solid (solidIds (assignSolids false ss st).1) ∧
+    (assignSolids false ss st).2.ent = st.ent ∧ (assignSolids false ss st).2.group = st.group ∧
+    (assignSolids false ss st).2.vis = st.vis := by
+  induction ss generalizing st with
+  | nil =>
+    simp only [assignSolids, solidFaceIds, solidIds, List.flatMap_nil, List.map_nil]
+    exact ⟨Fresh.nil _ hf, Fresh.nil _ hs, trivial, trivial, trivial⟩
+  | cons s r ih =>
+    simp only [assignSolids, solidFaceIds, solidIds, List.flatMap_cons, List.map_cons]
+    have h1 := assignSides_fresh s.sides st.face hf
+    have h2 := Fresh.get st.solid s.id hs
+    obtain ⟨i1, i2, i3, i4, i5⟩ := ih { st with face := (assignSides false s.sides st.face).2,
+                                                  solid := (st.solid.get false s.id).2 } h1.inv h2.inv
+    refine ⟨?_, ?_, i3, i4, i5⟩
+    · simpa [solidFaceIds] using h1.trans i1
+    · simpa [solidIds] using h2.trans i2
+
+
+
+
+theorem assignEnt_fresh (e : Ent) (st : Ids) (hf : st.face.Inv) (hs : st.solid.Inv) (he : st.ent.Inv) :
+    Fresh st.face (assignEnt false e st).2.face (solidFaceIds (assignEnt false e st).1.solids) ∧
+    Fresh st.solid (assignEnt false e st).2.solid (solidIds (assignEnt false e st).1.solids) ∧
+    Fresh st.ent (assignEnt false e st).2.ent [(assignEnt false e st).1.id] ∧
+    (assignEnt false e st).2.group = st.group ∧ (assignEnt false e st).2.vis = st.vis := by
+  obtain ⟨i1, i2, i3, i4, i5⟩ := assignSolids_fresh e.solids st hf hs
+  simp only [assignEnt]
+  refine ⟨i1, i2, ?_, i4, i5⟩
+  rw [i3]
+  exact Fresh.get st.ent e.id he
+
+def entSolids (es : List Ent) : List Solid := es.flatMap (·.solids)
+
+theorem solidFaceIds_append (a b : List Solid) : solidFaceIds (a ++ b) = solidFaceIds a ++ solidFaceIds b := by
+  simp [solidFaceIds]
+
+theorem solidIds_append (a b : List Solid) : solidIds (a ++ b) = solidIds a ++ solidIds b := by
+  simp [solidIds]
+
+theorem assignEnts_fresh (es : List Ent) (st : Ids) (hf : st.face.Inv) (hs : st.solid.Inv) (he : st.ent.Inv) :
+    Fresh st.face (assignEnts false es st).2.face (solidFaceIds (entSolids (assignEnts false es st).1)) ∧
+    Fresh st.solid (assignEnts false es st).2.solid (solidIds (entSolids (assignEnts false es st).1)) ∧
+    Fresh st.ent (assignEnts false es st).2.ent ((assignEnts false es st).1.map (·.id)) := by
+  induction es generalizing st with
+  | nil =>
+    simp only [assignEnts, entSolids, List.flatMap_nil, List.map_nil, solidFaceIds, solidIds]
+    exact ⟨Fresh.nil _ hf, Fresh.nil _ hs, Fresh.nil _ he⟩
+  | cons e r ih =>
+    obtain ⟨a1, a2, a3, _, _⟩ := assignEnt_fresh e st hf hs he
+    obtain ⟨b1, b2, b3⟩ := ih (assignEnt false e st).2 a1.inv a2.inv a3.inv
+    simp only [assignEnts, entSolids, List.flatMap_cons, List.map_cons, solidFaceIds_append, solidIds_append]
+    exact ⟨a1.trans b1, a2.trans b2, by simpa using a3.trans b3⟩
+
+theorem assignGroups_fresh (gs : List Group) (m : IdMan) (acc : List Group) (h : m.Inv)
+    (hacc : ∀ g ∈ acc, g.id ∈ m.used) :
+    ∃ gs', (assignGroups false gs m acc).1 = acc ++ gs' ∧
+      Fresh m (assignGroups false gs m acc).2 (gs'.map (·.id)) := by
+  induction gs generalizing m acc with
+  | nil => exact ⟨[], by simp [assignGroups], by simpa [assignGroups] using Fresh.nil m h⟩
+  | cons g r ih =>
+    obtain ⟨h1, h2, h3, h4⟩ := get_false_spec m g.id h
+    have hf := Fresh.get m g.id h
+    have hnot : acc.any (fun x => x.id == (m.get false g.id).1) = false := by
+      simp only [List.any_eq_false, beq_iff_eq]
+      intro x hx e
+      exact h1 (e ▸ hacc x hx)
+    simp only [assignGroups, hnot, Bool.false_eq_true, if_false]
+    obtain ⟨gs', e1, e2⟩ := ih (m.get false g.id).2 (acc ++ [{ g with id := (m.get false g.id).1 }]) h3 (by
+      intro x hx
+      rw [h4]
+      simp only [List.mem_append, List.mem_singleton] at hx
+      rcases hx with hx | rfl
+      · exact List.mem_cons_of_mem _ (hacc x hx)
+      · simp)
+    refine ⟨{ g with id := (m.get false g.id).1 } :: gs', by simp [e1], ?_⟩
+    simpa using hf.trans e2
+
+/-- after `preserve_ids=False`, every kind of id is pairwise distinct and positive -/
+structure IdsInjective (m : VMap) : Prop where
+  vis : (visIdsLA m.vis).Nodup ∧ ∀ i ∈ visIdsLA m.vis, 0 < i
+  groups : (m.groups.map (·.id)).Nodup ∧ ∀ i ∈ m.groups.map (·.id), 0 < i
+  ents : ((m.spawn :: m.ents).map (·.id)).Nodup ∧ ∀ i ∈ (m.spawn :: m.ents).map (·.id), 0 < i
+  solids : (solidIds (entSolids (m.spawn :: m.ents))).Nodup ∧ ∀ i ∈ solidIds (entSolids (m.spawn :: m.ents)), 0 < i
+  faces : (solidFaceIds (entSolids (m.spawn :: m.ents))).Nodup ∧
+    ∀ i ∈ solidFaceIds (entSolids (m.spawn :: m.ents)), 0 < i
+
+theorem inv_default : ({} : IdMan).Inv := by simp [IdMan.Inv]
+
+theorem assignIds_injective (m : VMap) : IdsInjective (assignIds false m) := by
+  have hph := Fresh.get ({} : IdMan) (-1) inv_default
+  have hvis := assignVisList_fresh m.vis {} inv_default
+  obtain ⟨gs', hg1, hg2⟩ := assignGroups_fresh m.groups {} [] inv_default (by simp)
+  -- worldspawn, with the entity manager that already handed out the placeholder's id
+  obtain ⟨a1, a2, a3, _, _⟩ := assignEnt_fresh m.spawn
+    { solid := {}, face := {}, ent := (({} : IdMan).get false (-1)).2,
+      group := (assignGroups false m.groups {} []).2,
+      vis := (assignVisAux.assignVisList false m.vis {}).2 } inv_default inv_default hph.inv
+  obtain ⟨b1, b2, b3⟩ := assignEnts_fresh m.ents _ a1.inv a2.inv a3.inv
+  have hf := a1.trans b1
+  have hs := a2.trans b2
+  have he := a3.trans b3
+  refine ⟨⟨hvis.nodup, hvis.pos⟩, ?_, ?_, ?_, ?_⟩
+  · simp only [assignIds, hg1, List.nil_append]
+    exact ⟨hg2.nodup, hg2.pos⟩
+  · simp only [assignIds, List.map_cons]
+    exact ⟨by simpa using he.nodup, by simpa using he.pos⟩
+  · simp only [assignIds, entSolids, List.flatMap_cons, solidIds_append]
+    exact ⟨hs.nodup, hs.pos⟩
+  · simp only [assignIds, entSolids, List.flatMap_cons, solidFaceIds_append]
+    exact ⟨hf.nodup, hf.pos⟩
+
+
 end C06
